@@ -162,6 +162,55 @@ def check_expand_tasks(A, R: Report, rid: str):
             witness=cfg.describe_path(p_ns or p_fm) if (p_ns or p_fm) else None, where=where(fex))
 
 
+def edge_coverage(A, g):
+    """(ok, why): the graph built in g gets an edge for every Task-valued entry of every task's input_tasks: either
+    add_edge in a loop nest (tasks x their inputs) skipped only for non-Task inputs, or add_edges_from over a
+    comprehension with exactly that domain and filter."""
+    cfg = A.cfg(g)
+    allnodes = list(cfg.nodes)
+    found = []
+    for n in inl(A, g):
+        if not (isinstance(n, ast.Call) and isinstance(n.func, ast.Attribute)):
+            continue
+        if n.func.attr == 'add_edge' and len(n.args) >= 2:
+            nest = [p for p in _parents(n) if isinstance(p, ast.For)]
+            inner = next((lp for lp in nest if 'input_tasks' in src(lp.iter)), None)
+            outer = next((lp for lp in nest if 'self.tasks' in src(lp.iter) and 'input_tasks' not in src(lp.iter)), None)
+            if inner is None or outer is None:
+                found.append((False, 'add_edge is not inside a loop over the tasks and a loop over their input_tasks'))
+                continue
+            ivars = [x.id for x in ast.walk(inner.target) if isinstance(x, ast.Name)]
+            heads = [h.id for h in cfg.nodes.values() if h.kind == 'for' and h.ast is inner]
+            starts = [v for h in heads for v in cfg.succ_by_label(h, 'loop')]
+            gates = [cn.id for cn in cfg_nodes_for(cfg, n)]
+            for e in cfg.nodes.values():
+                if e.kind == 'edge' and e.label == 'F' and isinstance(e.ast, ast.Call) and src(e.ast.func) == 'isinstance' and len(e.ast.args) == 2 and src(e.ast.args[0]) in ivars and src(e.ast.args[1]) == 'Task':
+                    gates.append(e.id)
+            skip = cfg.find_path(starts, heads, avoid=gates, no_exc_from=allnodes)
+            full = loop_runs_to_end(inner) and loop_runs_to_end(outer) and loop_unconditional(cfg, outer, inner) if False else (loop_runs_to_end(inner) and loop_runs_to_end(outer))
+            found.append((skip is None and full, 'an input can be skipped for another reason than not being a Task' if skip is not None else ('a loop ends early' if not full else '')))
+        elif n.func.attr == 'add_edges_from' and n.args:
+            e = subst_single_assign(A, g, n.args[0])
+            if not isinstance(e, (ast.GeneratorExp, ast.ListComp, ast.SetComp)):
+                found.append((None, 'edge collection not recognised'))
+                continue
+            gens = e.generators
+            outer = next((x for x in gens if 'self.tasks' in src(x.iter) and 'input_tasks' not in src(x.iter)), None)
+            inner = next((x for x in gens if 'input_tasks' in src(x.iter)), None)
+            if outer is None or inner is None:
+                found.append((False, 'edges are not generated over the tasks and their input_tasks'))
+                continue
+            ivars = [x.id for x in ast.walk(inner.target) if isinstance(x, ast.Name)]
+            filt_ok = all(isinstance(c, ast.Call) and src(c.func) == 'isinstance' and len(c.args) == 2 and src(c.args[0]) in ivars and src(c.args[1]) == 'Task' for x in gens for c in x.ifs)
+            found.append((filt_ok, '' if filt_ok else 'edges are filtered by another condition than the input being a Task'))
+    if not found:
+        return False, 'no edges are added'
+    if any(o is None for o, _ in found):
+        return True, 'undecided'
+    bad = [w for o, w in found if not o]
+    return (not bad), (bad[0] if bad else '')
+
+
 def run(A, R: Report, thorough: bool):
     R.explanation = ('CFG must-pass-through of the acyclicity gate in every _prepare implementation; handler analysis of the missing-input path; symbolic order of exclusion and '
                      'registration; a nominal type system over name strings (namespace / full name / slug) that flags textual prefix, suffix and substring tests between structured names; '
@@ -197,14 +246,9 @@ def run(A, R: Report, thorough: bool):
     for g in gates:
         # the graph receives an edge for every Task input of every task
         fb, edges = graph_orientation(A) if g.short == 'Chain._build_graph' else (g, [])
-        loops = [n for n in A.typer.own_nodes(g) if isinstance(n, ast.For)]
-        outer = [lp for lp in loops if 'self.tasks' in src(lp.iter)]
-        inner = [lp for lp in loops if 'input_tasks' in src(lp.iter)]
-        skips = [n for lp in inner for n in ast.walk(lp) if isinstance(n, ast.If) and any(isinstance(b, ast.Continue) for b in n.body)]
-        skip_ok = all(any(src(s.test) == f'not isinstance({src(lp.target)}, Task)' for lp in inner) for s in skips)
-        adds = [n for lp in inner for n in ast.walk(lp) if isinstance(n, ast.Call) and isinstance(n.func, ast.Attribute) and n.func.attr == 'add_edge']
-        R.check(bool(outer) and bool(inner) and bool(adds) and skip_ok, 'R08.1', f'{g.short}: edges', key_of('edges', bool(outer), bool(inner), bool(adds), skip_ok),
-                'one edge per Task-valued input of every task', 'the graph that is checked for cycles does not receive every declared input edge', where=where(g))
+        ok_edges, why = edge_coverage(A, g)
+        R.check(ok_edges, 'R08.1', f'{g.short}: edges', key_of('edges', why), 'one edge per Task-valued input of every task',
+                f'the graph that is checked for cycles does not receive every declared input edge ({why})', where=where(g))
     n_prep = 0
     for c in chain.all_subclasses():
         f = c.methods.get('_prepare')
